@@ -394,6 +394,10 @@ def run_property(prop, tier, seed, replay=None):
         reported.add(case_key(small))
         _worker_init(modname)
         a2, o2, _ = _worker_eval(small)
+        try:
+            mans = run_driver([mod.line(small)])[0] if (have_driver and mod.line(small)) else mans
+        except Exception:
+            pass
         path = write_replay(prop, dict(property=prop, kind="failing-input", clause=o2 or why, case=small,
                                        original_case=c, impl_answer=a2, model_answer=mans,
                                        driver_line=mod.line(small), seed=seed, tier=tier))
